@@ -51,6 +51,7 @@ def gen(repo, outdir):
         a = "".join(", " + x for x in args)
         client = 0 if who == "NULL" else 1
         lines.append('FMT_CASE(%d, %d, "%s", "%s", "%s"%s)' % (n, client, fmt, word, rest, a))
+        idx.append("#define FMT_NNUM_%d %d" % (n, sum(1 for _, c in conv if c in "diuxc")))
         if fmt == "k :%s":
             idx.append("#define FMT_INDEX_KILL %d" % n)
         if fmt.startswith("X %s %s"):
